@@ -318,6 +318,8 @@ class Interp:
                 return SV(self.run.fresh('errno'))
         if isinstance(v, PathV):
             pass
+        if isinstance(v, OpaqueV) and v.tag in ('md5', 'bytes', 'generator', 'str'):
+            return BuiltinV(f'{v.tag}.{name}', bound=v)
         if isinstance(v, OpaqueV) and v.tag == 'typeof':
             if name == '__name__':
                 return OpaqueV('str')
@@ -351,6 +353,8 @@ class Interp:
         if name == 'ayns':
             return AynsV(v)
         if name == '__dict__':
+            if set(self.classes_of(v)) <= {'module'}:
+                return SV(self.heap.get('$dict', sym.r_of(t)), hint=frozenset(['dict']))
             return OpaqueV('__dict__', v)
         if name == '__class__':
             return OpaqueV('typeof', v)
@@ -538,7 +542,7 @@ class Interp:
                 k = self.narrow(v, groups, 'dispatch-__setattr__')
                 if k is not None and found[k] is not None:
                     return self.call_func(found[k], [v, sv_const(name), val], {}, node, fr)
-            self.heap.put(name, sym.r_of(v.t), self.sv(val, node).t)
+            self.heap.put(name, sym.r_of(v.t), self.store_val(val, node))
             return
         if isinstance(v, SlotV) and name == 'value':
             self.heap.put('$slot:' + v.name, z3.IntVal(0), self.sv(val, node).t)
